@@ -1182,7 +1182,18 @@ class GList:
         g0 = E.g()
         if isinstance(i, slice):
             if any(is_sym(x) for x in (i.start, i.stop, i.step)):
-                return E.lift(lambda a, b, c: None, [])  # pragma: no cover
+                out = []
+                for ha, a in E.inst(i.start):
+                    for hb, b in E.inst(i.stop):
+                        for hc, c_ in E.inst(i.step):
+                            hh = d.all_([ha, hb, hc])
+                            if hh == FALSE or E.known_false(hh):
+                                continue
+                            for g, t in alts:
+                                gh = d.and_(g, hh)
+                                if gh != FALSE:
+                                    out.append((gh, t[slice(a, b, c_)]))
+                return GList._from(out, self.sep)
             return GList._from([(g, t[i]) for g, t in alts], self.sep)
         res = []
         for h, iv in E.inst(i):
@@ -1284,7 +1295,7 @@ class GList:
 # hooks used by rewritten code
 # ======================================================================
 
-ORDER = {'mode': 'fixed', 'max': 3, 'n': 0}
+ORDER = {'mode': 'fixed', 'max': 3, 'n': 0, 'epoch': 0}    # epoch: bump to model 'another process / hash seed'
 
 
 def _perm_iter(items, owner=None):
@@ -1296,7 +1307,7 @@ def _perm_iter(items, owner=None):
     if ORDER['mode'] != 'symbolic' or k < 2 or k > ORDER['max']:
         return items
     cached = getattr(owner, '_ord', None) if owner is not None else None
-    key = (getattr(owner, '_ver', 0), tuple(e for _, e in items)) if owner is not None else None
+    key = (ORDER['epoch'], getattr(owner, '_ver', 0), tuple(e for _, e in items)) if owner is not None else None
     if cached is not None and cached[0] == key:
         alts = cached[1]
     else:
@@ -1426,7 +1437,19 @@ def EQ(a, b):
             for g, v in ia:
                 for h, w in ib:
                     gh = d.and_(g, h)
-                    if gh != FALSE and _concrete_eq(v, w) == TRUE:
+                    if gh == FALSE or not E.feasible(gh):
+                        continue
+                    try:
+                        eq = _concrete_eq(v, w)
+                    except LiftError:
+                        raise
+                    except Exception as ex:
+                        # == itself raises for this pair of alternatives: a failure exactly under their guards
+                        if d.and_(gh, E.g()) == TRUE:
+                            raise
+                        E.fail(d.and_(gh, E.g()), type(ex).__name__, str(ex))
+                        continue
+                    if eq == TRUE:
                         terms.append(gh)
             return d.any_(terms)
     if isinstance(a, (U, SB)) or isinstance(b, (U, SB)):
